@@ -130,13 +130,17 @@ def reference(X, centre):
     Xc = X - mean
     _, s, vt = np.linalg.svd(Xc, full_matrices=False)
     lam = s ** 2 / (n - 1)
-    keep = lam > 1e-8 * lam[0]
+    keep = (lam > 1e-8 * lam[0]) & (lam > 0)
     return mean, lam[keep], vt[keep]
 
 
 def gen_data(n, d, centre, variant, seed, form="f64"):
     """n x d data matrix with a well separated spectrum (guarded), both for centred and uncentred use."""
     vform = form if form in VALUE_FORMS else "f64"  # forms that only change the container share the payload
+    if variant == "const":
+        # integer values: the mean of equal rows is exact, the centred data is exactly zero (with values whose
+        # mean rounds, the residue of ~1e-16 passes the relative floor as a component of variance ~1e-31: noise)
+        return np.tile(np.round(8.0 * rs(seed, "c10-const", n, d).rand(d) + 1.0), (n, 1))
     for attempt in range(3000):
         r = rs(seed, "c10-data", n, d, int(centre), variant, attempt)
         k = min(n - 1 if centre else n, d)
@@ -188,6 +192,11 @@ def to_object(kind, x, dtype=float):
         return Image(x.reshape(1, 2, 2))
     if kind == "img2":
         return Image(x.reshape(2, 1, 3))
+    if kind == "imgd":  # one-channel image with exactly len(x) pixels (most square factorisation)
+        h = max(f for f in range(1, int(len(x) ** 0.5) + 1) if len(x) % f == 0)
+        return Image(x.reshape(1, h, len(x) // h))
+    if kind == "pcd":  # 2-D point cloud with len(x) / 2 points
+        return PointCloud(x.reshape(-1, 2))
     if kind == "mimg":
         mask = np.array([[True, False, True], [False, True, False]])
         px = np.zeros((2, 2, 3), dtype=dtype)
@@ -274,6 +283,8 @@ def construct(root, X, max_n=None):
             return PCAVectorModel(rows, centre=centre, max_n_components=max_n)
         if inkind == "list-ns":
             return PCAVectorModel(rows, centre=centre, n_samples=n, max_n_components=max_n, inplace=False)
+        if inkind == "list-ns-more":  # one sample more than n_samples: only the first n_samples count
+            return PCAVectorModel(list(rows) + [2.0 * X[0] + 1.0], centre=centre, n_samples=n, max_n_components=max_n)
         raise ValueError(inkind)
     dtype = INT_FORMS.get(form, np.float32 if form == "f32" else float)
     objs = [to_object(kind, row, dtype) for row in X]
@@ -285,6 +296,8 @@ def construct(root, X, max_n=None):
         return PCAModel(iter(objs), centre=centre, n_samples=n, max_n_components=max_n)
     if inkind == "list-copy":
         return PCAModel(objs, centre=centre, max_n_components=max_n, inplace=False)
+    if inkind == "iter-more":  # the iterator yields one sample more than n_samples
+        return PCAModel(iter(list(objs) + [to_object(kind, 2.0 * X[0] + 1.0, dtype)]), centre=centre, n_samples=n, max_n_components=max_n)
     raise ValueError(inkind)
 
 
@@ -305,6 +318,44 @@ def legal(root):
     if form in ("fortran", "strided", "readonly") and not (kind == "vec" and inkind.startswith("array")):
         return False
     return True
+
+
+def block_size():
+    """the block size of the in-place product used by pca on the n <= d path, read from the code."""
+    import inspect
+
+    from menpo.math.linalg import dot_inplace_right
+
+    return int(inspect.signature(dot_inplace_right).parameters["block_size"].default)
+
+
+def boundary_roots():
+    """one data letter per size / value boundary visible in the anchored code.
+    variant 'block': feature counts at and around the block size of dot_inplace_right (static identities only);
+    variant 'const': zero-variance data (no component at all; static identities only)."""
+    B = block_size()
+    out = []
+    for d in (B - 1, B, B + 1, 2 * B):
+        for c in (1, 0):
+            for ink in ("array", "array-copy", "list"):
+                out.append(("vec", 3, d, c, "block", ink))
+            for ink in ("list", "list-copy"):
+                out.append(("imgd", 3, d, c, "block", ink))
+        if d % 2 == 0:
+            out.append(("pcd", 2, d, 1, "block", "iter"))
+    # smallest sizes: one feature, two samples, n = d = 2
+    for n, d in ((2, 1), (3, 1), (2, 2)):
+        for c in (1, 0):
+            for ink in ("array", "array-copy"):
+                out.append(("vec", n, d, c, "full", ink))
+    # more samples supplied than n_samples
+    out += [("vec", 5, 3, 1, "full", "list-ns-more"), ("vec", 3, 5, 0, "full", "list-ns-more"), ("pc", 4, 6, 1, "full", "iter-more"), ("img", 6, 4, 0, "full", "iter-more")]
+    # zero variance: every sample equal
+    out += [("vec", 3, 4, 1, "const", "array"), ("vec", 4, 2, 1, "const", "array-copy"), ("pc", 3, 6, 1, "const", "list")]
+    return out
+
+
+STATIC_VARIANTS = ("block", "const")
 
 
 def form_roots():
@@ -369,6 +420,7 @@ class C10(Check):
                     out.append((kind, n, OBJ_DIMS[kind], c, "full", "list"))
         out += [("pc", 8, 6, 1, "full", "iter"), ("img", 3, 4, 0, "full", "iter"), ("mimg", 6, 6, 1, "full", "iter"), ("pc", 4, 6, 1, "full", "list-copy")]
         out += form_roots()
+        out += boundary_roots()
         if self.tier == "thorough":
             more = [(2, 2), (3, 1), (2, 1), (3, 3), (7, 9), (9, 7), (8, 8), (10, 4), (4, 10), (9, 10), (11, 10)]
             for n, d in more:
@@ -393,16 +445,16 @@ class C10(Check):
         model = construct(root, X)
         K = len(lam)
         tot = float(lam.sum())
-        cum = np.cumsum(lam) / tot
+        cum = np.cumsum(lam) / tot if K else np.zeros(0)
         # variance-fraction letters moved off cumulative-ratio ties (payload depends on the data letter)
         fmap = {}
-        for f in F_LETTERS:
+        for f in F_LETTERS if K else ():
             g = f
             while np.min(np.abs(cum - g)) < tol["tie"]:
                 g -= 3 * tol["tie"]
             fmap[f] = g
         # variance fractions given as numpy float32 / float16 scalars: the model sees the value the scalar holds
-        for skind in NARROW_FLOAT_FORMS:
+        for skind in NARROW_FLOAT_FORMS if K else ():
             ctor = SCALAR_FORMS[skind][1]
             for f in NARROW_F_LETTERS:
                 h = f
@@ -456,6 +508,8 @@ class C10(Check):
     def ops(self, st, level):
         K = st["K"]
         out = []
+        if st.get("root") and st["root"][4] in STATIC_VARIANTS:
+            return out  # size / value boundary letters: static identities only
         if self.tier == "quick" and st.get("form", "f64") != "f64" and level >= 2:
             # data letters in other argument forms: every (kept, active) state is reached and verified
             # (two letters); the third level is left to the float64 letters and to the thorough tier
@@ -647,6 +701,18 @@ class C10(Check):
         self.note("form:%s-%s-%s" % (st["form"], "object" if kind != "vec" else "vector", "centred" if st["centre"] else "uncentred"))
         if root[5] in ("array", "list", "iter"):
             self.note("form-inplace:%s" % st["form"])
+        B = block_size()
+        if root[4] == "block":
+            where = "below" if d < B else "at" if d == B else "above" if d < 2 * B else "at-twice"
+            self.note("boundary:block-size-%s-%s-%s" % (where, "inplace" if root[5] in ("array", "list", "iter") else "copy", "object" if kind != "vec" else "vector"))
+        if d == 1:
+            self.note("boundary:one-feature")
+        if n == 2:
+            self.note("boundary:two-samples")
+        if root[5] in ("list-ns-more", "iter-more"):
+            self.note("boundary:more-samples-than-n_samples")
+        if root[4] == "const":
+            return self._zero_variance(st)
         if m.n_components != st["K"]:
             fails.append(Failure("build", "component-count", "n_components=%r but the data has %d directions of positive variance" % (m.n_components, st["K"])))
             return fails
@@ -660,6 +726,36 @@ class C10(Check):
             fails.extend(self._identities(st, "build"))
         if not fails:
             fails.extend(self._fresh(st, "build"))
+        if not fails:
+            # max_n_components one beyond the number of components: nothing to trim
+            beyond = construct(root, st["X"], max_n=int(st["K"]) + 1)
+            diff = obs_diff(observe(m), observe(beyond))
+            self.note("boundary:max_n_components-beyond")
+            if diff:
+                fails.append(Failure("build", "max-n-components-beyond-count", "built with max_n_components=K+1 differs from the plain build at %s" % diff))
+        return fails
+
+    def _zero_variance(self, st):
+        """every sample equal: no direction of positive variance, the mean is the sample, everything
+        reconstructs to the mean."""
+        m = st["m"]
+        api = Api(st["kind"], m)
+        fails = []
+        self.note("boundary:zero-variance-data")
+        if m.n_components != 0 or m.n_active_components != 0 or np.asarray(m.eigenvalues).shape != (0,):
+            return [Failure("build", "component-count", "zero-variance data: n_components=%r n_active=%r eigenvalues=%r" % (m.n_components, m.n_active_components, m.eigenvalues))]
+        x0 = st["X"][0]
+        mv = api.mean(fails)
+        if np.max(np.abs(mv - x0)) > 1e-13 * st["scale"]:
+            fails.append(Failure("build", "mean-is-sample-mean", "mean %r, every sample is %r" % (mv, x0)))
+        for x in (x0, st["probes"][1]):
+            rec = api.reconstruct(x, fails)
+            if np.max(np.abs(rec - mv)) > 0 or api.project(x).shape != (0,):
+                fails.append(Failure("build", "reconstruct-is-projection-on-leading-axes", "a model without components reconstructs %r to %r (mean %r)" % (x, rec, mv)))
+            if np.max(np.abs(api.project_out(x, fails) - (x - mv))) > 1e-13 * st["scale"]:
+                fails.append(Failure("build", "project-out-is-residual", "project_out(x) != x - mean"))
+        if float(m.original_variance()) != 0.0 or float(m.variance()) != 0.0:
+            fails.append(Failure("build", "original-variance-constant", "zero-variance data: original_variance()=%r variance()=%r" % (m.original_variance(), m.variance())))
         return fails
 
     def _bookkeeping(self, st, where):
@@ -755,6 +851,10 @@ class C10(Check):
             w = mixed[: a - 1]
             got = api.project(api.instance(w, side))
             out.append(("project-instance-returns-weights-short", np.max(np.abs(got - np.concatenate([w, [0.0]]))), TOL_VEC, "short weight vector %r gave %r" % (w, got)))
+        # boundary: no weight at all -> the mean, which projects to zero weights
+        e0 = api.instance(np.zeros(0), side)
+        out.append(("empty-weights-give-the-mean", max(np.max(np.abs(e0 - mean)) / scale, float(np.max(np.abs(api.project(e0))))), TOL_VEC, "instance([])"))
+        self.note("boundary:empty-weights")
         # instance is mean + w C
         w = mixed
         out.append(("instance-is-mean-plus-combination", np.max(np.abs(api.instance(w, side) - (mean + w.dot(vt[:a] * np.sign(np.sum(C * vt[:a], axis=1))[:, None])))) / scale, TOL_VEC, "instance(w)"))
@@ -899,6 +999,10 @@ class C10(Check):
             "fresh:trimmed-all-active",
             "fresh:trimmed-some-inactive",
         ]
+        # size / value boundaries
+        for where in ("below", "at", "above", "at-twice"):
+            need += ["boundary:block-size-%s-inplace-vector" % where, "boundary:block-size-%s-copy-vector" % where, "boundary:block-size-%s-inplace-object" % where]
+        need += ["boundary:one-feature", "boundary:two-samples", "boundary:more-samples-than-n_samples", "boundary:zero-variance-data", "boundary:empty-weights", "boundary:max_n_components-beyond", "static:K=1"]
         # argument forms: every data form the tree accepts, every weight / vector / scalar form
         for form in INT_FORMS:
             need.append("form:%s-vector-centred" % form)
@@ -952,7 +1056,10 @@ class C10(Check):
         return [
             "data letters have a well separated spectrum: lambda[i+1]/lambda[i] <= %g, lambda[last]/lambda[0] >= %g (guarded, redrawn otherwise)" % (GAP_MAX_RATIO, FLOOR_MIN_RATIO),
             "variance-fraction letters keep a distance of %g to every cumulative variance ratio (exactly 1.0 is a floating-point tie and is not used)" % F_TIE_MARGIN,
-            "n <= 11 samples, d <= 10 features; data in the argument forms float64 / int64 / int32 / int16 / uint8 / bool / float32 ndarrays, "
+            "size boundaries: d = B-1, B, B+1, 2B for the block size B = %d of dot_inplace_right (n = 2, 3; static identities only), d = 1, n = 2, n = d = 2, "
+            "one sample more than n_samples, zero-variance data (no component), empty weight vector, max_n_components = K+1; n = 1, n = 0 and d = 0 are "
+            "not letters (no sample variance / refused with ValueError)" % block_size(),
+            "otherwise n <= 11 samples, d <= 10 features; data in the argument forms float64 / int64 / int32 / int16 / uint8 / bool / float32 ndarrays, "
             "Fortran-ordered, non-contiguous and read-only arrays, lists of rows, lists of python float / int lists, tuples of samples, "
             "wherever the unchanged tree accepts the form (probed on /repo)",
             "forms that are NOT letters: read-only data with inplace=True (refused, ValueError), float32 data centred with n <= d "
